@@ -3,6 +3,7 @@
 cd "$(dirname "$0")/.."
 IDS="$1"; FROM="$2"; TO="$3"; TIER="${4:-quick}"
 fail=0
+if [ -n "${XSV_ROOT:-}" ] && [ "$XSV_ROOT" != /verif ]; then mkdir -p "$XSV_ROOT"; cp /verif/known_findings.json "$XSV_ROOT/"; fi
 for id in $IDS; do
   for s in $(seq "$FROM" "$TO"); do
     out=$(VERIF_SEED=$s harness/target/debug/xsverif check "$id" "$TIER" 2>&1); rc=$?
